@@ -14,7 +14,7 @@ from .lattice import fmt_p
 
 _CFG = {}
 EPS2 = 0.0002 ** 2
-TKINDS = {"Sgate": ["sq", "angle"], "BSgate": ["angle", "angle"], "Rgate": ["angle"], "MeasureHomodyne": ["angle"]}
+TKINDS = {"Sgate": ["sq", "angle"], "Dgate": ["real", "angle"], "Xgate": ["real"], "Zgate": ["real"], "CZgate": ["real"], "BSgate": ["angle", "angle"], "Rgate": ["angle"], "MeasureHomodyne": ["angle"]}
 
 
 def _build(static, shift="default"):
@@ -24,11 +24,13 @@ def _build(static, shift="default"):
     bands = static["bands"]
     prog = sf.TDMProgram(N=bands if len(bands) > 1 else bands[0])
     arrays = [[sfx.to_float("angle", v) for v in arr] for arr in static["arrays"]]
+    na = len(arrays)
+    arrays += [[sfx.to_float("real", v) for v in arr] for arr in static.get("rarrays", [])]
     with prog.context(*arrays, shift=shift) as (p, q):
         for c in static["bin"]:
             args = []
             for kind, src in zip(TKINDS[c["name"]], c["e"]):
-                args.append(sfx.to_float(kind, src[1]) if src[0] == "c" else p[src[1] - 1])
+                args.append(sfx.to_float(kind, src[1]) if src[0] == "c" else p[src[1] - 1] if src[0] == "p" else p[na + src[1] - 1])
             op = getattr(ops, c["name"])(*args)
             if c["dag"]:
                 op = op.H
@@ -182,9 +184,10 @@ def c13(chk):
                 "joint state. Non-trivial = every history with >= 1 call and every run.")
     chk.assumptions = ["shift = default (per-band rotation); integer shift 1 on a single band is checked to produce the same circuit",
                        "Gaussian simulator; homodyne comparisons at 1e-6/1e-5 (finite squeezing eps)"]
-    templates = [("n2", 3), ("n3", 4), ("n3b", 3), ("b22", 3)] if tier == "quick" else [("n2", 3), ("n2", 5), ("n3", 4), ("n3", 6), ("n3b", 3), ("n3b", 5), ("b22", 3), ("b22", 4)]
+    templates = ([("n2", 3), ("n3", 4), ("n3b", 3), ("b22", 3), ("b23", 4), ("b352", 2), ("n2x", 3)] if tier == "quick" else
+                 [("n2", 3), ("n2", 5), ("n3", 4), ("n3", 6), ("n3b", 3), ("n3b", 5), ("b22", 3), ("b22", 4), ("b23", 4), ("b23", 5), ("b352", 3), ("n2x", 3), ("n2x", 5)])
     for tid, T in templates:
-        r = chk.tlc("MC_TDM", constants={"TemplateId": tid, "T": T, "MaxShots": 2, "HistDepth": 3, "EMIT": True},
+        r = chk.tlc("MC_TDM", constants={"TemplateId": tid, "T": T, "MaxShots": 1 if tid == "b352" else 2, "HistDepth": 3, "EMIT": True},
                     invariants=["RollRestores", "CacheCoherent", "MeansLoop", "EmitHist", "EmitStatic"])
         static = [j for j in r.json if j["kind"] == "static"][0]
         hists = [j for j in r.json if j["kind"] == "hist"]
@@ -226,6 +229,7 @@ def c13(chk):
         if single:
             runs += [("space_nomeas", 1, []), ("space_nomeas", 1, [("space_unroll", 1)]), ("space_nomeas", 1, [("space_unroll", 1), ("roll", 0)]),
                      ("space_nomeas", 1, [("unroll", 1)]), ("space_sampled", 1, []), ("shift", 1, [("space_unroll", 1), ("roll", 0)])]
+        runs = [x for x in runs if x[1] <= len(static["chain"])]          # shots the model was asked for (MaxShots)
         rr = common.pmap(_run_case, [(static, m, s, ph) for (m, s, ph) in runs], chunksize=1)
         joint = static["joint"]
         for o in rr:
@@ -272,6 +276,14 @@ def c13(chk):
                 got = np.array(o["samples"], dtype=float)
                 if got.shape != want.shape or np.max(np.abs(got - want)) > 1e-9:
                     chk.violation("SampleArrangement", f, dict(det, got=np.round(got, 4).tolist() if got.size < 60 else str(got.shape), want=want.tolist()))
+                elif o["mode"] == "shift" and "samples_dict" in o:
+                    # the dictionary form: key = leading mode of the band, value[shot][bin]
+                    offs = [sum(static["bands"][:b]) for b in range(nb)]
+                    sd = {int(k): np.array(v, dtype=float) for k, v in o["samples_dict"].items()}
+                    bad = sorted(sd) != offs or any(sd[offs[b]].shape != want[:, b, :].shape or np.max(np.abs(sd[offs[b]] - want[:, b, :])) > 1e-9
+                                                    for b in range(nb))
+                    if bad:
+                        chk.violation("SampleDictionary", f, dict(det, keys=sorted(sd), expected_keys=offs))
             if o["mode"] == "shift":
                 # final window: register index m holds pulse HeldPulse(m, shots*T); the just-measured index is vacuum
                 mu, V = sc.exact_arrays(ch["st"])
